@@ -2,4 +2,1478 @@ import Operon.Model.Wiring
 /-! Helper lemmas for the typed-wiring theorems (C16). -/
 namespace Operon.Wiring
 
+/-! ### vocabulary of the theorems -/
+
+/-- the value may sit on an input port of this type: same data type, at least the required integrity -/
+def TV.fits (v : TV) (pt : PortType) : Prop := v.dt = pt.dt ∧ pt.il ≤ v.il
+
+/-- the value carries exactly the declared label of an output port -/
+def TV.exact (v : TV) (pt : PortType) : Prop := v.dt = pt.dt ∧ v.il = pt.il
+
+/-- module names are unique (what `add_module` maintains; `modules` is a dict) -/
+def Diagram.WF (d : Diagram) : Prop := (d.modules.map (·.name)).Nodup
+
+/-- every wire joins an existing output port to an existing input port and obeys the flow rule
+    (what `connect` maintains) -/
+def Diagram.Accepted (d : Diagram) : Prop :=
+  ∀ w ∈ d.wires, ∃ s t, d.outPort w.srcM w.srcP = some s ∧ d.inPort w.dstM w.dstP = some t ∧
+    s.dt = t.dt ∧ t.il ≤ s.il
+
+/-- the weaker shape condition: every wire joins existing ports (no KeyError possible) -/
+def Diagram.WiresExist (d : Diagram) : Prop :=
+  ∀ w ∈ d.wires, (d.findMod w.srcM).isSome ∧ (d.inPort w.dstM w.dstP).isSome
+
+theorem Diagram.Accepted.wiresExist {d : Diagram} (h : d.Accepted) : d.WiresExist := by
+  intro w hw
+  obtain ⟨s, t, hs, ht, -, -⟩ := h w hw
+  refine ⟨?_, by simp [ht]⟩
+  unfold Diagram.outPort at hs
+  cases hf : d.findMod w.srcM with
+  | none => simp [hf] at hs
+  | some m => simp
+
+/-! ### association lists -/
+
+theorem hasKey_iff {β : Type} (k : Nat) (l : List (Nat × β)) : hasKey k l = true ↔ ∃ v, (k, v) ∈ l := by
+  unfold hasKey
+  simp only [List.any_eq_true, beq_iff_eq]
+  constructor
+  · rintro ⟨⟨k', v⟩, hm, rfl⟩; exact ⟨v, hm⟩
+  · rintro ⟨v, hm⟩; exact ⟨(k, v), hm, rfl⟩
+
+theorem hasKey_append {β : Type} (k : Nat) (a b : List (Nat × β)) :
+    hasKey k (a ++ b) = (hasKey k a || hasKey k b) := by
+  unfold hasKey; simp
+
+theorem lookup_mem {β : Type} {k : Nat} {v : β} : ∀ {l : List (Nat × β)}, l.lookup k = some v → (k, v) ∈ l
+  | [], h => by simp at h
+  | (k', v') :: r, h => by
+    simp only [List.lookup_cons] at h
+    split at h
+    · rename_i hk
+      simp only [beq_iff_eq] at hk
+      simp only [Option.some.injEq] at h
+      subst hk h; simp
+    · exact List.mem_cons_of_mem _ (lookup_mem h)
+
+theorem mem_setKey {β : Type} {k : Nat} {v : β} {pv : Nat × β} :
+    ∀ {l : List (Nat × β)}, pv ∈ setKey k v l → pv = (k, v) ∨ pv ∈ l
+  | [], h => by simp [setKey] at h; exact Or.inl h
+  | (k', v') :: r, h => by
+    simp only [setKey] at h
+    split at h
+    · simp only [List.mem_cons] at h
+      rcases h with h | h
+      · exact Or.inl h
+      · exact Or.inr (List.mem_cons_of_mem _ h)
+    · simp only [List.mem_cons] at h
+      rcases h with h | h
+      · exact Or.inr (by simp [h])
+      · rcases mem_setKey h with h | h
+        · exact Or.inl h
+        · exact Or.inr (List.mem_cons_of_mem _ h)
+
+theorem findMod_some {d : Diagram} {n : Nat} {m : ModuleSpec} (h : d.findMod n = some m) :
+    m ∈ d.modules ∧ m.name = n := by
+  unfold Diagram.findMod at h
+  exact ⟨List.mem_of_find?_eq_some h, by simpa using List.find?_some h⟩
+
+theorem findMod_of_mem {d : Diagram} (hwf : d.WF) {m : ModuleSpec} (hm : m ∈ d.modules) :
+    d.findMod m.name = some m := by
+  unfold Diagram.findMod Diagram.WF at *
+  generalize d.modules = l at *
+  induction l with
+  | nil => simp at hm
+  | cons a l ih =>
+    simp only [List.map_cons, List.nodup_cons, List.mem_map, not_exists, not_and] at hwf
+    simp only [List.mem_cons] at hm
+    rcases hm with rfl | hm
+    · simp
+    · have hne : a.name ≠ m.name := fun h => hwf.1 m hm h.symm
+      rw [List.find?_cons_of_neg (by simpa using hne)]
+      exact ih hwf.2 hm
+
+theorem inPort_some {d : Diagram} {n p : Nat} {pt : PortType} (h : d.inPort n p = some pt) :
+    ∃ m, d.findMod n = some m ∧ m.inputs.lookup p = some pt := by
+  unfold Diagram.inPort at h
+  cases hf : d.findMod n with
+  | none => simp [hf] at h
+  | some m => exact ⟨m, rfl, by simpa [hf] using h⟩
+
+theorem outPort_some {d : Diagram} {n p : Nat} {pt : PortType} (h : d.outPort n p = some pt) :
+    ∃ m, d.findMod n = some m ∧ m.outputs.lookup p = some pt := by
+  unfold Diagram.outPort at h
+  cases hf : d.findMod n with
+  | none => simp [hf] at h
+  | some m => exact ⟨m, rfl, by simpa [hf] using h⟩
+
+/-! ### the flow rule and the coercions -/
+
+theorem requireFlowTo_none_iff (s t : PortType) : s.requireFlowTo t = none ↔ s.dt = t.dt ∧ t.il ≤ s.il := by
+  unfold PortType.requireFlowTo
+  by_cases h1 : s.dt = t.dt <;> by_cases h2 : s.il < t.il <;> simp [h1, h2] <;> omega
+
+theorem canFlowTo_iff (s t : PortType) : s.canFlowTo t = true ↔ s.dt = t.dt ∧ t.il ≤ s.il := by
+  unfold PortType.canFlowTo; simp
+
+theorem requireFlowTo_isWiringError {s t : PortType} {e : Err} (h : s.requireFlowTo t = some e) :
+    e.isWiringError = true := by
+  unfold PortType.requireFlowTo at h
+  split at h
+  · cases h; rfl
+  · split at h
+    · cases h; rfl
+    · cases h
+
+theorem coerceInput_ok {v : Val} {pt : PortType} {tv : TV} (h : coerceInput v pt = .ok tv) : tv.fits pt := by
+  unfold coerceInput at h
+  split at h
+  · rename_i t
+    split at h
+    · cases h
+    · split at h
+      · cases h
+      · cases h
+        rename_i h1 h2
+        simp only [bne_iff_ne, ne_eq, Classical.not_not] at h1
+        exact ⟨h1, by omega⟩
+  · cases h; exact ⟨rfl, Nat.le_refl _⟩
+
+theorem coerceInput_err {v : Val} {pt : PortType} {e : Err} (h : coerceInput v pt = .error e) :
+    e.isWiringError = true := by
+  unfold coerceInput at h
+  split at h
+  · split at h
+    · cases h; rfl
+    · split at h
+      · cases h; rfl
+      · cases h
+  · cases h
+
+theorem coerceOutput_ok {v : Val} {pt : PortType} {tv : TV} (h : coerceOutput v pt = .ok tv) :
+    tv.exact pt ∧ (∀ t, v = .typed t → t = tv) := by
+  unfold coerceOutput at h
+  split at h
+  · rename_i t
+    split at h
+    · cases h
+    · split at h
+      · cases h
+      · cases h
+        rename_i h1 h2
+        simp only [bne_iff_ne, ne_eq, Classical.not_not] at h1 h2
+        exact ⟨⟨h1, h2⟩, by intro t' ht'; cases ht'; rfl⟩
+  · cases h; exact ⟨⟨rfl, rfl⟩, by intro t ht; cases ht⟩
+
+theorem coerceOutput_err {v : Val} {pt : PortType} {e : Err} (h : coerceOutput v pt = .error e) :
+    e.isWiringError = true := by
+  unfold coerceOutput at h
+  split at h
+  · split at h
+    · cases h; rfl
+    · split at h
+      · cases h; rfl
+      · cases h
+  · cases h
+
+/-- a labelled value that contradicts the declared label is refused -/
+theorem coerceOutput_mislabelled {t : TV} {pt : PortType} (h : ¬ t.exact pt) :
+    ∃ e, coerceOutput (.typed t) pt = .error e ∧ e.isWiringError = true := by
+  unfold coerceOutput
+  by_cases h1 : t.dt = pt.dt
+  · by_cases h2 : t.il = pt.il
+    · exact absurd ⟨h1, h2⟩ h
+    · exact ⟨.outputIntegrity, by simp [h1, h2], rfl⟩
+  · exact ⟨.outputType, by simp [h1], rfl⟩
+
+/-- what a successful `coerceOutputs` says about its result and about the raw dict -/
+theorem coerceOutputs_ok {raw : List (Nat × Val)} :
+    ∀ {ports : List (Nat × PortType)} {outs : List (Nat × TV)}, coerceOutputs raw ports = .ok outs →
+      keys outs = keys ports ∧
+      (∀ p v, outs.lookup p = some v → ∃ pt, ports.lookup p = some pt ∧ v.exact pt) ∧
+      (∀ pp ∈ ports, ∀ t, raw.lookup pp.1 = some (.typed t) → t.exact pp.2)
+  | [], outs, h => by
+    simp only [coerceOutputs] at h; cases h
+    exact ⟨rfl, by intro p v h; simp at h, by intro pp h; simp at h⟩
+  | (p, pt) :: r, outs, h => by
+    simp only [coerceOutputs] at h
+    split at h
+    · cases h
+    · rename_i v hv
+      split at h
+      · cases h
+      · rename_i tv htv
+        split at h
+        · cases h
+        · rename_i l hl
+          cases h
+          obtain ⟨ih1, ih2, ih3⟩ := coerceOutputs_ok hl
+          have hco := coerceOutput_ok htv
+          refine ⟨by simp [keys] at ih1 ⊢; exact ih1, ?_, ?_⟩
+          · intro p' v' hlk
+            simp only [List.lookup_cons] at hlk ⊢
+            split at hlk
+            · cases hlk; exact ⟨pt, rfl, hco.1⟩
+            · exact ih2 p' v' hlk
+          · intro pp hpp t ht
+            simp only [List.mem_cons] at hpp
+            rcases hpp with rfl | hpp
+            · simp only at ht
+              rw [hv] at ht; cases ht
+              have := hco.2 t rfl
+              subst this; exact hco.1
+            · exact ih3 pp hpp t ht
+
+theorem coerceOutputs_err {raw : List (Nat × Val)} :
+    ∀ {ports : List (Nat × PortType)} {e : Err}, coerceOutputs raw ports = .error e → e.isWiringError = true
+  | [], e, h => by simp [coerceOutputs] at h
+  | (p, pt) :: r, e, h => by
+    simp only [coerceOutputs] at h
+    split at h
+    · cases h; rfl
+    · split at h
+      · rename_i e' he'; cases h; exact coerceOutput_err he'
+      · split at h
+        · rename_i e' he'; cases h; exact coerceOutputs_err he'
+        · cases h
+
+/-- a mislabelled entry for a declared port makes `coerceOutputs` fail -/
+theorem coerceOutputs_mislabelled {raw : List (Nat × Val)} :
+    ∀ {ports : List (Nat × PortType)} {pp : Nat × PortType} {t : TV}, pp ∈ ports →
+      raw.lookup pp.1 = some (.typed t) → ¬ t.exact pp.2 → ∃ e, coerceOutputs raw ports = .error e := by
+  intro ports pp t hpp hraw hbad
+  cases h : coerceOutputs raw ports with
+  | error e => exact ⟨e, rfl⟩
+  | ok outs => exact absurd ((coerceOutputs_ok h).2.2 pp hpp t hraw) hbad
+
+/-! ### external inputs -/
+
+/-- every value sitting on an input port of a declared module is on a declared port and (under `G`) fits it -/
+def PortsFit (d : Diagram) (G : Prop) (mi : MInputs) : Prop :=
+  ∀ n m, d.findMod n = some m → ∀ pv ∈ mi n, ∃ pt, m.inputs.lookup pv.1 = some pt ∧ (G → pv.2.fits pt)
+
+theorem extPorts_ok {m : ModuleSpec} {G : Prop} :
+    ∀ {ins : List (Nat × Val)} {acc res : List (Nat × TV)}, extPorts m ins acc = .ok res →
+      (∀ pv ∈ acc, ∃ pt, m.inputs.lookup pv.1 = some pt ∧ (G → pv.2.fits pt)) →
+      (∀ pv ∈ res, ∃ pt, m.inputs.lookup pv.1 = some pt ∧ (G → pv.2.fits pt))
+  | [], acc, res, h, hacc => by simp only [extPorts] at h; cases h; exact hacc
+  | (p, v) :: r, acc, res, h, hacc => by
+    simp only [extPorts] at h
+    split at h
+    · cases h
+    · rename_i pt hpt
+      split at h
+      · cases h
+      · rename_i tv htv
+        refine extPorts_ok h ?_
+        intro pv hpv
+        rcases mem_setKey hpv with rfl | hpv
+        · exact ⟨pt, hpt, fun _ => coerceInput_ok htv⟩
+        · exact hacc pv hpv
+
+theorem extPorts_err {m : ModuleSpec} :
+    ∀ {ins : List (Nat × Val)} {acc : List (Nat × TV)} {e : Err}, extPorts m ins acc = .error e →
+      e.isWiringError = true
+  | [], acc, e, h => by simp [extPorts] at h
+  | (p, v) :: r, acc, e, h => by
+    simp only [extPorts] at h
+    split at h
+    · cases h; rfl
+    · split at h
+      · rename_i e' he'; cases h; exact coerceInput_err he'
+      · exact extPorts_err h
+
+theorem extPhase_ok {d : Diagram} {G : Prop} :
+    ∀ {ext : List (Nat × List (Nat × Val))} {mi mi' : MInputs}, extPhase d ext mi = .ok mi' →
+      PortsFit d G mi → PortsFit d G mi'
+  | [], mi, mi', h, hmi => by simp only [extPhase] at h; cases h; exact hmi
+  | (n, ins) :: r, mi, mi', h, hmi => by
+    simp only [extPhase] at h
+    split at h
+    · cases h
+    · rename_i m hm
+      split at h
+      · cases h
+      · rename_i l hl
+        refine extPhase_ok h ?_
+        intro n' m' hm' pv hpv
+        by_cases hn : n' = n
+        · subst hn
+          simp only [if_true] at hpv
+          rw [hm] at hm'; cases hm'
+          exact extPorts_ok hl (hmi n' m hm) pv hpv
+        · simp only [hn, if_false] at hpv
+          exact hmi n' m' hm' pv hpv
+
+theorem extPhase_err {d : Diagram} :
+    ∀ {ext : List (Nat × List (Nat × Val))} {mi : MInputs} {e : Err}, extPhase d ext mi = .error e →
+      e.isWiringError = true
+  | [], mi, e, h => by simp [extPhase] at h
+  | (n, ins) :: r, mi, e, h => by
+    simp only [extPhase] at h
+    split at h
+    · cases h; rfl
+    · split at h
+      · rename_i e' he'; cases h; exact extPorts_err he'
+      · exact extPhase_err h
+
+/-! ### one module: handler invocation -/
+
+/-- the recorded outputs of module `m` are what its handler returned on the recorded inputs, coerced
+    port by port (or nothing, for a module without handler) -/
+def RecGood (H : Nat → Option Handler) (m : ModuleSpec) (r : Rec) : Prop :=
+  match H r.name with
+  | none => r.outputs = []
+  | some h => ∃ raw, h r.inputs = .ret raw ∧ sameKeys (keys raw) (keys m.outputs) = true ∧
+      coerceOutputs raw m.outputs = .ok r.outputs
+
+/-- the handler invocation `c` returned, for a declared output port, an explicitly labelled value whose
+    label contradicts the declaration -/
+def Mislabelled (d : Diagram) (H : Nat → Option Handler) (c : Call) : Prop :=
+  ∃ m h raw pp t, d.findMod c.name = some m ∧ H c.name = some h ∧ h c.inputs = .ret raw ∧
+    pp ∈ m.outputs ∧ raw.lookup pp.1 = some (.typed t) ∧ ¬ t.exact pp.2
+
+def newCall (H : Nat → Option Handler) (st : St) (m : ModuleSpec) : List Call :=
+  if (H m.name).isSome then [⟨m.name, st.minputs m.name⟩] else []
+
+theorem produce_ok {H : Nat → Option Handler} {st : St} {m : ModuleSpec} {calls : List Call}
+    {outs : List (Nat × TV)} (h : produce H st m = .ok (calls, outs)) :
+    RecGood H m ⟨m.name, st.minputs m.name, outs⟩ ∧ calls = st.calls ++ newCall H st m := by
+  unfold produce at h
+  unfold RecGood newCall
+  split at h
+  · rename_i hH
+    cases h
+    simp [hH]
+  · rename_i hd hH
+    split at h
+    · cases h
+    · rename_i raw hraw
+      split at h
+      · cases h
+      · rename_i hk
+        split at h
+        · cases h
+        · rename_i outs' ho
+          cases h
+          simp only [hH, Option.isSome_some, if_true, and_true]
+          exact ⟨raw, hraw, by simpa using hk, ho⟩
+
+theorem produce_err {H : Nat → Option Handler} {st : St} {m : ModuleSpec} {calls : List Call} {e : Err}
+    (h : produce H st m = .error (calls, e)) :
+    calls = st.calls ++ [⟨m.name, st.minputs m.name⟩] ∧
+    ∃ hd, H m.name = some hd ∧
+      ((e = .handlerRaised ∧ hd (st.minputs m.name) = .raise) ∨
+       (e.isWiringError = true ∧ ∃ raw, hd (st.minputs m.name) = .ret raw)) := by
+  unfold produce at h
+  split at h
+  · cases h
+  · rename_i hd hH
+    split at h
+    · rename_i hr
+      cases h
+      exact ⟨rfl, hd, hH, Or.inl ⟨rfl, hr⟩⟩
+    · rename_i raw hraw
+      split at h
+      · cases h
+        exact ⟨rfl, hd, hH, Or.inr ⟨rfl, raw, hraw⟩⟩
+      · split at h
+        · rename_i e' he'
+          cases h
+          exact ⟨rfl, hd, hH, Or.inr ⟨coerceOutputs_err he', raw, hraw⟩⟩
+        · cases h
+
+/-- a mislabelled return value makes `produce` fail (with a WiringError, by `produce_err`) -/
+theorem produce_mislabelled {d : Diagram} {H : Nat → Option Handler} {st : St} {m : ModuleSpec}
+    (hm : d.findMod m.name = some m) (hbad : Mislabelled d H ⟨m.name, st.minputs m.name⟩) :
+    ∃ calls e, produce H st m = .error (calls, e) ∧ e.isWiringError = true := by
+  obtain ⟨m', h, raw, pp, t, hm', hH, hret, hpp, hraw, hne⟩ := hbad
+  simp only at hm' hH hret
+  rw [hm] at hm'; cases hm'
+  cases hp : produce H st m with
+  | error f =>
+    obtain ⟨calls, e⟩ := f
+    refine ⟨calls, e, rfl, ?_⟩
+    obtain ⟨-, hd, hH', hcase⟩ := produce_err hp
+    rw [hH] at hH'; cases hH'
+    rcases hcase with ⟨-, hr⟩ | ⟨hw, -⟩
+    · rw [hret] at hr; cases hr
+    · exact hw
+  | ok res =>
+    obtain ⟨calls, outs⟩ := res
+    have hg := (produce_ok hp).1
+    unfold RecGood at hg
+    simp only [hH] at hg
+    obtain ⟨raw', hret', -, hco⟩ := hg
+    rw [hret] at hret'; cases hret'
+    exact absurd ((coerceOutputs_ok hco).2.2 pp hpp t hraw) hne
+
+/-! ### one module: delivery along the outgoing wires -/
+
+theorem deliver_ok {d : Diagram} {enforce : Bool} {outs : List (Nat × TV)} :
+    ∀ {ws : List Wire} {st st' : St}, deliver d enforce outs ws st = .ok st' →
+      st'.records = st.records ∧ st'.calls = st.calls ∧
+      (∀ n, ∃ extra, st'.minputs n = st.minputs n ++ extra ∧
+        ∀ pv ∈ extra, ∃ w ∈ ws, w.dstM = n ∧ w.dstP = pv.1 ∧ outs.lookup w.srcP = some pv.2 ∧
+          ∃ pt, d.inPort n pv.1 = some pt ∧ (enforce = true → pv.2.fits pt)) ∧
+      (∀ w ∈ ws, hasKey w.dstP (st.minputs w.dstM) = false ∧ (d.inPort w.dstM w.dstP).isSome ∧
+        ∃ v, outs.lookup w.srcP = some v ∧ (w.dstP, v) ∈ st'.minputs w.dstM)
+  | [], st, st', h => by
+    simp only [deliver] at h; cases h
+    exact ⟨rfl, rfl, fun n => ⟨[], by simp, by simp⟩, by simp⟩
+  | w :: ws, st, st', h => by
+    simp only [deliver] at h
+    split at h
+    · cases h
+    · rename_i v hv
+      split at h
+      · cases h
+      · rename_i pt hpt
+        split at h
+        · cases h
+        · rename_i hty
+          split at h
+          · cases h
+          · rename_i hil
+            split at h
+            · cases h
+            · rename_i hk
+              obtain ⟨ih1, ih2, ih3, ih4⟩ := deliver_ok h
+              have hfit : enforce = true → v.fits pt := by
+                intro he
+                simp only [he, Bool.true_and, bne_iff_ne, ne_eq, Classical.not_not, decide_eq_true_eq,
+                  Nat.not_lt] at hty hil
+                exact ⟨hty, hil⟩
+              refine ⟨ih1, ih2, ?_, ?_⟩
+              · intro n
+                obtain ⟨extra, he1, he2⟩ := ih3 n
+                by_cases hn : n = w.dstM
+                · subst hn
+                  refine ⟨(w.dstP, v) :: extra, by simp [he1, MInputs.add], ?_⟩
+                  intro pv hpv
+                  simp only [List.mem_cons] at hpv
+                  rcases hpv with rfl | hpv
+                  · exact ⟨w, by simp, rfl, rfl, hv, pt, hpt, hfit⟩
+                  · obtain ⟨w', hw', rest⟩ := he2 pv hpv
+                    exact ⟨w', List.mem_cons_of_mem _ hw', rest⟩
+                · refine ⟨extra, by simp [he1, MInputs.add, hn], ?_⟩
+                  intro pv hpv
+                  obtain ⟨w', hw', rest⟩ := he2 pv hpv
+                  exact ⟨w', List.mem_cons_of_mem _ hw', rest⟩
+              · intro w' hw'
+                simp only [List.mem_cons] at hw'
+                rcases hw' with rfl | hw'
+                · refine ⟨by simpa using hk, by simp [hpt], v, hv, ?_⟩
+                  obtain ⟨extra, he1, -⟩ := ih3 w'.dstM
+                  rw [he1]; simp [MInputs.add]
+                · obtain ⟨a, b, c⟩ := ih4 w' hw'
+                  refine ⟨?_, b, c⟩
+                  simp only [MInputs.add] at a
+                  split at a
+                  · rw [hasKey_append] at a
+                    simp only [Bool.or_eq_false_iff] at a
+                    exact a.1
+                  · exact a
+
+theorem deliver_err {d : Diagram} {enforce : Bool} {outs : List (Nat × TV)} :
+    ∀ {ws : List Wire} {st : St} {calls : List Call} {e : Err},
+      deliver d enforce outs ws st = .error (calls, e) →
+      calls = st.calls ∧ (e.isWiringError = true ∨ (e = .keyError ∧ ∃ w ∈ ws, d.inPort w.dstM w.dstP = none))
+  | [], st, calls, e, h => by simp [deliver] at h
+  | w :: ws, st, calls, e, h => by
+    simp only [deliver] at h
+    split at h
+    · cases h; exact ⟨rfl, Or.inl rfl⟩
+    · split at h
+      · rename_i hpt; cases h; exact ⟨rfl, Or.inr ⟨rfl, w, by simp, hpt⟩⟩
+      · split at h
+        · cases h; exact ⟨rfl, Or.inl rfl⟩
+        · split at h
+          · cases h; exact ⟨rfl, Or.inl rfl⟩
+          · split at h
+            · cases h; exact ⟨rfl, Or.inl rfl⟩
+            · obtain ⟨a, b⟩ := deliver_err h
+              refine ⟨a, ?_⟩
+              rcases b with b | ⟨b, w', hw', hn⟩
+              · exact Or.inl b
+              · exact Or.inr ⟨b, w', List.mem_cons_of_mem _ hw', hn⟩
+
+/-! ### the invariant of the scheduling loop -/
+
+/-- What holds of every state the scheduling loop reaches without raising.  `G` is the guard under which
+    labels are promised (`enforce_static_checks` on, or every wire accepted by the flow rule). -/
+structure Inv (d : Diagram) (H : Nat → Option Handler) (G : Prop) (st : St) : Prop where
+  nodup : st.order.Nodup
+  recMod : ∀ r ∈ st.records, ∃ m, d.findMod r.name = some m ∧ r.inputs = st.minputs r.name ∧
+    (∀ pp ∈ m.inputs, hasKey pp.1 r.inputs = true) ∧ RecGood H m r
+  fit : PortsFit d G st.minputs
+  ordered : ∀ w ∈ d.wires, w.srcM ∈ st.order → w.dstM ∈ st.order →
+    st.order.idxOf w.srcM < st.order.idxOf w.dstM
+  flowed : ∀ w ∈ d.wires, w.srcM ∈ st.order → ∃ r ∈ st.records, r.name = w.srcM ∧
+    (d.inPort w.dstM w.dstP).isSome = true ∧
+    ∃ v, r.outputs.lookup w.srcP = some v ∧ (w.dstP, v) ∈ st.minputs w.dstM
+  callsEq : st.calls = (st.records.filter (fun r => (H r.name).isSome)).map (fun r => ⟨r.name, r.inputs⟩)
+
+theorem mem_order {st : St} {n : Nat} : n ∈ st.order ↔ ∃ r ∈ st.records, r.name = n := by
+  simp [St.order]
+
+theorem ready_iff {st : St} {m : ModuleSpec} :
+    ready st m = true ↔ ∀ pp ∈ m.inputs, hasKey pp.1 (st.minputs m.name) = true := by
+  simp [ready]
+
+/-- a module all of whose declared input ports are filled receives nothing more -/
+theorem deliver_frozen {d : Diagram} {enforce : Bool} {outs : List (Nat × TV)} {ws : List Wire} {st st' : St}
+    (h : deliver d enforce outs ws st = .ok st') {n : Nat} {m : ModuleSpec} (hm : d.findMod n = some m)
+    (hall : ∀ pp ∈ m.inputs, hasKey pp.1 (st.minputs n) = true) : st'.minputs n = st.minputs n := by
+  obtain ⟨-, -, d3, d4⟩ := deliver_ok h
+  obtain ⟨extra, he, hx⟩ := d3 n
+  have : extra = [] := by
+    rw [List.eq_nil_iff_forall_not_mem]
+    intro pv hpv
+    obtain ⟨w, hw, hwn, hwp, -, pt, hpt, -⟩ := hx pv hpv
+    obtain ⟨m', hm', hlk⟩ := inPort_some hpt
+    rw [hm] at hm'; cases hm'
+    have h1 := hall (pv.1, pt) (lookup_mem hlk)
+    have h2 := (d4 w hw).1
+    rw [hwn, hwp] at h2
+    simp only at h1
+    rw [h1] at h2; cases h2
+  rw [he, this]; simp
+
+theorem runModule_inv {d : Diagram} {H : Nat → Option Handler} {enforce : Bool} {G : Prop} {st st' : St}
+    {m : ModuleSpec} (hwf : d.WF) (hG : G → enforce = true ∨ d.Accepted) (hinv : Inv d H G st)
+    (hm : m ∈ d.modules) (hnot : m.name ∉ st.order) (hready : ready st m = true)
+    (h : runModule d H enforce st m = .ok st') : Inv d H G st' ∧ st'.order = st.order ++ [m.name] := by
+  unfold runModule at h
+  split at h
+  · cases h
+  · rename_i calls outs hp
+    obtain ⟨hgood, hcalls⟩ := produce_ok hp
+    obtain ⟨d1, d2, d3, d4⟩ := deliver_ok h
+    simp only at d1 d2 d3 d4
+    have hfm : d.findMod m.name = some m := findMod_of_mem hwf hm
+    have hall_m := ready_iff.mp hready
+    have hord : st'.order = st.order ++ [m.name] := by simp [St.order, d1]
+    have frozen : ∀ n m0, d.findMod n = some m0 → (∀ pp ∈ m0.inputs, hasKey pp.1 (st.minputs n) = true) →
+        st'.minputs n = st.minputs n := fun n m0 h1 h2 => deliver_frozen h h1 h2
+    have hws : ∀ w ∈ d.outgoing m.name, w ∈ d.wires ∧ w.srcM = m.name := by
+      intro w hw
+      simpa [Diagram.outgoing] using hw
+    have hmono : ∀ n pv, pv ∈ st.minputs n → pv ∈ st'.minputs n := by
+      intro n pv hpv
+      obtain ⟨extra, he, -⟩ := d3 n
+      rw [he]; exact List.mem_append_left _ hpv
+    -- a wire out of `m` cannot end in a module that has already run, nor in `m` itself
+    have hnoback : ∀ w ∈ d.outgoing m.name, w.dstM ∉ st.order ++ [m.name] := by
+      intro w hw hdst
+      obtain ⟨hk, hin, -⟩ := d4 w hw
+      cases hpt : d.inPort w.dstM w.dstP with
+      | none => simp [hpt] at hin
+      | some pt =>
+        obtain ⟨m1, hm1, hlk⟩ := inPort_some hpt
+        have hpp := lookup_mem hlk
+        rw [List.mem_append] at hdst
+        rcases hdst with hdst | hdst
+        · obtain ⟨r, hr, hrn⟩ := mem_order.mp hdst
+          obtain ⟨m0, hf, hin0, hall, -⟩ := hinv.recMod r hr
+          rw [hrn] at hf hin0
+          rw [hm1] at hf; cases hf
+          have := hall (w.dstP, pt) hpp
+          rw [hin0] at this
+          simp only at this
+          rw [this] at hk; cases hk
+        · simp only [List.mem_singleton] at hdst
+          rw [hdst] at hm1 hk
+          rw [hfm] at hm1; cases hm1
+          have := hall_m (w.dstP, pt) hpp
+          simp only at this
+          rw [this] at hk; cases hk
+    refine ⟨⟨?_, ?_, ?_, ?_, ?_, ?_⟩, hord⟩
+    · -- nodup
+      rw [hord, List.nodup_append]
+      refine ⟨hinv.nodup, by simp, ?_⟩
+      intro a ha b hb
+      simp only [List.mem_singleton] at hb
+      subst hb
+      intro hab; subst hab; exact hnot ha
+    · -- recMod
+      intro r hr
+      rw [d1, List.mem_append] at hr
+      rcases hr with hr | hr
+      · obtain ⟨m0, hf, hin, hall, hg⟩ := hinv.recMod r hr
+        refine ⟨m0, hf, ?_, hall, hg⟩
+        rw [frozen r.name m0 hf (by rw [← hin]; exact hall)]; exact hin
+      · simp only [List.mem_singleton] at hr
+        subst hr
+        exact ⟨m, hfm, (frozen m.name m hfm hall_m).symm, hall_m, hgood⟩
+    · -- fit
+      intro n m0 hf pv hpv
+      obtain ⟨extra, he, hx⟩ := d3 n
+      rw [he, List.mem_append] at hpv
+      rcases hpv with hpv | hpv
+      · exact hinv.fit n m0 hf pv hpv
+      · obtain ⟨w, hw, hwn, hwp, hlk, pt, hpt, hfitE⟩ := hx pv hpv
+        obtain ⟨m1, hm1, hlk1⟩ := inPort_some hpt
+        rw [hf] at hm1; cases hm1
+        refine ⟨pt, hlk1, fun g => ?_⟩
+        rcases hG g with he | hacc
+        · exact hfitE he
+        · obtain ⟨hwd, hsrc⟩ := hws w hw
+          obtain ⟨s, t, hs, ht, e1, e2⟩ := hacc w hwd
+          rw [hwn, hwp, hpt] at ht; cases ht
+          obtain ⟨m2, hm2, hlk2⟩ := outPort_some hs
+          rw [hsrc, hfm] at hm2; cases hm2
+          unfold RecGood at hgood
+          simp only at hgood
+          split at hgood
+          · subst hgood; simp at hlk
+          · obtain ⟨raw, -, -, hco⟩ := hgood
+            obtain ⟨pt', hlk', hex⟩ := (coerceOutputs_ok hco).2.1 w.srcP pv.2 hlk
+            rw [hlk2] at hlk'; cases hlk'
+            exact ⟨hex.1.trans e1, by rw [hex.2]; exact e2⟩
+    · -- ordered
+      intro w hw hs hd'
+      rw [hord] at hs hd' ⊢
+      by_cases hsx : w.srcM = m.name
+      · have hwo : w ∈ d.outgoing m.name := by simp [Diagram.outgoing, hw, hsx]
+        exact absurd hd' (hnoback w hwo)
+      · have hs' : w.srcM ∈ st.order := by
+          rw [List.mem_append] at hs
+          rcases hs with hs | hs
+          · exact hs
+          · simp only [List.mem_singleton] at hs; exact absurd hs hsx
+        by_cases hdx : w.dstM ∈ st.order
+        · rw [List.idxOf_append, List.idxOf_append]
+          simp only [hs', hdx, if_true]
+          exact hinv.ordered w hw hs' hdx
+        · rw [List.idxOf_append, List.idxOf_append]
+          simp only [hs', hdx, if_true, if_false]
+          have := List.idxOf_lt_length_of_mem hs'
+          omega
+    · -- flowed
+      intro w hw hs
+      rw [hord, List.mem_append] at hs
+      rcases hs with hs | hs
+      · obtain ⟨r, hr, hrn, hin, v, hlk, hmem⟩ := hinv.flowed w hw hs
+        exact ⟨r, by rw [d1]; exact List.mem_append_left _ hr, hrn, hin, v, hlk, hmono _ _ hmem⟩
+      · simp only [List.mem_singleton] at hs
+        have hwo : w ∈ d.outgoing m.name := by simp [Diagram.outgoing, hw, hs]
+        obtain ⟨-, hin, v, hlk, hmem⟩ := d4 w hwo
+        exact ⟨⟨m.name, st.minputs m.name, outs⟩, by rw [d1]; simp, hs.symm, hin, v, hlk, hmem⟩
+    · -- callsEq
+      rw [d2, d1, hcalls, hinv.callsEq, List.filter_append, List.map_append]
+      congr 1
+      unfold newCall
+      cases hH : (H m.name).isSome <;> simp [hH]
+
+/-! ### handler invocations, also of failing runs -/
+
+/-- handler invocations: at most one per module, only modules of the diagram that have a handler, every
+    declared input port filled (no partially wired module runs), values on declared ports and (under `G`) fitting -/
+def CallsOK (d : Diagram) (H : Nat → Option Handler) (G : Prop) (calls : List Call) : Prop :=
+  (calls.map (·.name)).Nodup ∧
+  ∀ c ∈ calls, ∃ m, d.findMod c.name = some m ∧ (H c.name).isSome = true ∧
+    (∀ pp ∈ m.inputs, hasKey pp.1 c.inputs = true) ∧
+    (∀ pv ∈ c.inputs, ∃ pt, m.inputs.lookup pv.1 = some pt ∧ (G → pv.2.fits pt))
+
+/-- what holds of a raised exception -/
+def FailOK (d : Diagram) (H : Nat → Option Handler) (G : Prop) (f : Fail) : Prop :=
+  CallsOK d H G f.1 ∧ (∀ c ∈ f.1, Mislabelled d H c → f.2.isWiringError = true)
+
+theorem mem_calls {d : Diagram} {H : Nat → Option Handler} {G : Prop} {st : St} (hinv : Inv d H G st)
+    {c : Call} : c ∈ st.calls ↔ ∃ r ∈ st.records, (H r.name).isSome = true ∧ c = ⟨r.name, r.inputs⟩ := by
+  rw [hinv.callsEq]
+  simp only [List.mem_map, List.mem_filter]
+  constructor
+  · rintro ⟨r, ⟨hr, hh⟩, rfl⟩; exact ⟨r, hr, hh, rfl⟩
+  · rintro ⟨r, hr, hh, rfl⟩; exact ⟨r, ⟨hr, hh⟩, rfl⟩
+
+theorem calls_names_sublist {d : Diagram} {H : Nat → Option Handler} {G : Prop} {st : St}
+    (hinv : Inv d H G st) : (st.calls.map (·.name)).Sublist st.order := by
+  rw [hinv.callsEq, List.map_map]
+  unfold St.order
+  have : ((fun c : Call => c.name) ∘ fun r : Rec => (⟨r.name, r.inputs⟩ : Call)) = fun r => r.name := rfl
+  rw [this]
+  exact (List.filter_sublist).map _
+
+theorem inv_calls {d : Diagram} {H : Nat → Option Handler} {G : Prop} {st : St} (hinv : Inv d H G st) :
+    CallsOK d H G st.calls ∧ ∀ c ∈ st.calls, ¬ Mislabelled d H c := by
+  refine ⟨⟨(calls_names_sublist hinv).nodup hinv.nodup, ?_⟩, ?_⟩
+  · intro c hc
+    obtain ⟨r, hr, hh, rfl⟩ := (mem_calls hinv).mp hc
+    obtain ⟨m, hf, hin, hall, -⟩ := hinv.recMod r hr
+    refine ⟨m, hf, hh, hall, ?_⟩
+    intro pv hpv
+    simp only at hpv
+    rw [hin] at hpv
+    exact hinv.fit r.name m hf pv hpv
+  · intro c hc hbad
+    obtain ⟨r, hr, hh, rfl⟩ := (mem_calls hinv).mp hc
+    obtain ⟨m, hf, -, -, hg⟩ := hinv.recMod r hr
+    obtain ⟨m', h, raw, pp, t, hm', hH, hret, hpp, hraw, hne⟩ := hbad
+    simp only at hm' hH hret
+    rw [hf] at hm'; cases hm'
+    unfold RecGood at hg
+    simp only [hH] at hg
+    obtain ⟨raw', hret', -, hco⟩ := hg
+    rw [hret] at hret'; cases hret'
+    exact hne ((coerceOutputs_ok hco).2.2 pp hpp t hraw)
+
+theorem callsOK_snoc {d : Diagram} {H : Nat → Option Handler} {G : Prop} {st : St} {m : ModuleSpec}
+    (hwf : d.WF) (hinv : Inv d H G st) (hm : m ∈ d.modules) (hnot : m.name ∉ st.order)
+    (hready : ready st m = true) (hH : (H m.name).isSome = true) :
+    CallsOK d H G (st.calls ++ [⟨m.name, st.minputs m.name⟩]) := by
+  obtain ⟨⟨hnd, hall⟩, -⟩ := inv_calls hinv
+  have hfm : d.findMod m.name = some m := findMod_of_mem hwf hm
+  refine ⟨?_, ?_⟩
+  · rw [List.map_append, List.nodup_append]
+    refine ⟨hnd, by simp, ?_⟩
+    intro a ha b hb
+    simp only [List.map_cons, List.map_nil, List.mem_singleton] at hb
+    subst hb
+    intro hab; subst hab
+    exact hnot ((calls_names_sublist hinv).subset ha)
+  · intro c hc
+    rw [List.mem_append] at hc
+    rcases hc with hc | hc
+    · exact hall c hc
+    · simp only [List.mem_singleton] at hc
+      subst hc
+      exact ⟨m, hfm, hH, ready_iff.mp hready, fun pv hpv => hinv.fit m.name m hfm pv hpv⟩
+
+theorem runModule_fail {d : Diagram} {H : Nat → Option Handler} {enforce : Bool} {G : Prop} {st : St}
+    {m : ModuleSpec} {f : Fail} (hwf : d.WF) (hinv : Inv d H G st)
+    (hm : m ∈ d.modules) (hnot : m.name ∉ st.order) (hready : ready st m = true)
+    (h : runModule d H enforce st m = .error f) : FailOK d H G f := by
+  have hfm : d.findMod m.name = some m := findMod_of_mem hwf hm
+  obtain ⟨hok, hnobad⟩ := inv_calls hinv
+  unfold runModule at h
+  split at h
+  · rename_i f' hp
+    cases h
+    obtain ⟨calls, e⟩ := f
+    obtain ⟨hc, hd, hH, hcase⟩ := produce_err hp
+    subst hc
+    refine ⟨callsOK_snoc hwf hinv hm hnot hready (by simp [hH]), ?_⟩
+    intro c hc hbad
+    simp only [List.mem_append, List.mem_singleton] at hc
+    rcases hc with hc | hc
+    · exact absurd hbad (hnobad c hc)
+    · subst hc
+      rcases hcase with ⟨-, hr⟩ | ⟨hw, -⟩
+      · obtain ⟨m', h', raw, pp, t, -, hH', hret, -⟩ := hbad
+        simp only at hH' hret
+        rw [hH] at hH'; cases hH'
+        rw [hr] at hret; cases hret
+      · exact hw
+  · rename_i calls outs hp
+    obtain ⟨calls', e⟩ := f
+    obtain ⟨hc, -⟩ := deliver_err h
+    simp only at hc
+    subst hc
+    obtain ⟨-, hcalls⟩ := produce_ok hp
+    have hnew : ¬ Mislabelled d H ⟨m.name, st.minputs m.name⟩ := by
+      intro hbad
+      obtain ⟨c', e', hp', -⟩ := produce_mislabelled hfm hbad
+      rw [hp] at hp'; cases hp'
+    subst hcalls
+    unfold newCall
+    cases hH : (H m.name).isSome
+    · simp only [Bool.false_eq_true, if_false, List.append_nil]
+      exact ⟨hok, fun c hc hbad => absurd hbad (hnobad c hc)⟩
+    · simp only [if_true]
+      refine ⟨callsOK_snoc hwf hinv hm hnot hready hH, ?_⟩
+      intro c hc hbad
+      simp only [List.mem_append, List.mem_singleton] at hc
+      rcases hc with hc | hc
+      · exact absurd hbad (hnobad c hc)
+      · subst hc; exact absurd hbad hnew
+
+/-! ### scans and the loop -/
+
+theorem pass_ok {d : Diagram} {H : Nat → Option Handler} {enforce : Bool} {G : Prop} (hwf : d.WF)
+    (hG : G → enforce = true ∨ d.Accepted) :
+    ∀ {ms : List ModuleSpec} {st st' : St}, (∀ m ∈ ms, m ∈ d.modules) → Inv d H G st →
+      pass d H enforce ms st = .ok st' → Inv d H G st' ∧ st.order.length ≤ st'.order.length
+  | [], st, st', _, hinv, h => by simp only [pass] at h; cases h; exact ⟨hinv, Nat.le_refl _⟩
+  | m :: ms, st, st', hms, hinv, h => by
+    have hms' : ∀ m' ∈ ms, m' ∈ d.modules := fun m' hm' => hms m' (List.mem_cons_of_mem _ hm')
+    simp only [pass] at h
+    split at h
+    · exact pass_ok hwf hG hms' hinv h
+    · rename_i hnot
+      split at h
+      · exact pass_ok hwf hG hms' hinv h
+      · rename_i hready
+        replace hready : ready st m = true := by simpa using hready
+        split at h
+        · cases h
+        · rename_i st1 hrun
+          obtain ⟨hinv1, hord1⟩ := runModule_inv hwf hG hinv (hms m (by simp)) hnot hready hrun
+          obtain ⟨hinv', hlen⟩ := pass_ok hwf hG hms' hinv1 h
+          refine ⟨hinv', ?_⟩
+          rw [hord1] at hlen
+          simp only [List.length_append, List.length_cons, List.length_nil] at hlen
+          omega
+
+theorem pass_fail {d : Diagram} {H : Nat → Option Handler} {enforce : Bool} {G : Prop} (hwf : d.WF)
+    (hG : G → enforce = true ∨ d.Accepted) :
+    ∀ {ms : List ModuleSpec} {st : St} {f : Fail}, (∀ m ∈ ms, m ∈ d.modules) → Inv d H G st →
+      pass d H enforce ms st = .error f → FailOK d H G f
+  | [], st, f, _, _, h => by simp [pass] at h
+  | m :: ms, st, f, hms, hinv, h => by
+    have hms' : ∀ m' ∈ ms, m' ∈ d.modules := fun m' hm' => hms m' (List.mem_cons_of_mem _ hm')
+    simp only [pass] at h
+    split at h
+    · exact pass_fail hwf hG hms' hinv h
+    · rename_i hnot
+      split at h
+      · exact pass_fail hwf hG hms' hinv h
+      · rename_i hready
+        replace hready : ready st m = true := by simpa using hready
+        split at h
+        · rename_i f' hrun
+          cases h
+          exact runModule_fail hwf hinv (hms m (by simp)) hnot hready hrun
+        · rename_i st1 hrun
+          obtain ⟨hinv1, -⟩ := runModule_inv hwf hG hinv (hms m (by simp)) hnot hready hrun
+          exact pass_fail hwf hG hms' hinv1 h
+
+theorem loop_ok {d : Diagram} {H : Nat → Option Handler} {enforce : Bool} {G : Prop} (hwf : d.WF)
+    (hG : G → enforce = true ∨ d.Accepted) :
+    ∀ {fuel : Nat} {st st' : St}, Inv d H G st → loop d H enforce fuel st = .ok st' →
+      Inv d H G st' ∧ d.modules.length ≤ st'.order.length
+  | 0, st, st', hinv, h => by
+    simp only [loop] at h
+    split at h
+    · cases h
+    · cases h; exact ⟨hinv, by omega⟩
+  | fuel + 1, st, st', hinv, h => by
+    simp only [loop] at h
+    split at h
+    · split at h
+      · cases h
+      · rename_i st1 hp
+        split at h
+        · cases h
+        · exact loop_ok hwf hG (pass_ok hwf hG (fun _ hm => hm) hinv hp).1 h
+    · cases h; exact ⟨hinv, by omega⟩
+
+theorem inv_failOK {d : Diagram} {H : Nat → Option Handler} {G : Prop} {st : St} (hinv : Inv d H G st)
+    (e : Err) : FailOK d H G (st.calls, e) :=
+  ⟨(inv_calls hinv).1, fun c hc hbad => absurd hbad ((inv_calls hinv).2 c hc)⟩
+
+theorem loop_fail {d : Diagram} {H : Nat → Option Handler} {enforce : Bool} {G : Prop} (hwf : d.WF)
+    (hG : G → enforce = true ∨ d.Accepted) :
+    ∀ {fuel : Nat} {st : St} {f : Fail}, Inv d H G st → loop d H enforce fuel st = .error f → FailOK d H G f
+  | 0, st, f, hinv, h => by
+    simp only [loop] at h
+    split at h
+    · cases h; exact inv_failOK hinv _
+    · cases h
+  | fuel + 1, st, f, hinv, h => by
+    simp only [loop] at h
+    split at h
+    · split at h
+      · rename_i f' hp
+        cases h
+        exact pass_fail hwf hG (fun _ hm => hm) hinv hp
+      · rename_i st1 hp
+        have hinv1 := (pass_ok hwf hG (fun _ hm => hm) hinv hp).1
+        split at h
+        · cases h; exact inv_failOK hinv1 _
+        · exact loop_fail hwf hG hinv1 h
+    · cases h
+
+/-! ### which exceptions can escape; the fuel is enough -/
+
+/-- the only things `execute` can raise: a WiringError; the exception of a handler that raised; a KeyError,
+    and that one only when some wire (appended behind `connect`'s back) names a module or port that does not
+    exist.  In particular never the model's `outOfFuel`. -/
+def ErrClass (d : Diagram) (H : Nat → Option Handler) (e : Err) : Prop :=
+  e.isWiringError = true ∨
+  (e = .handlerRaised ∧ ∃ n hd ins, H n = some hd ∧ hd ins = .raise) ∨
+  (e = .keyError ∧ ¬ d.WiresExist)
+
+theorem runModule_records {d : Diagram} {H : Nat → Option Handler} {enforce : Bool} {st st' : St}
+    {m : ModuleSpec} (h : runModule d H enforce st m = .ok st') : st'.order = st.order ++ [m.name] := by
+  unfold runModule at h
+  split at h
+  · cases h
+  · obtain ⟨d1, -⟩ := deliver_ok h
+    simp only at d1
+    simp [St.order, d1]
+
+theorem runModule_errClass {d : Diagram} {H : Nat → Option Handler} {enforce : Bool} {st : St}
+    {m : ModuleSpec} {c : List Call} {e : Err} (h : runModule d H enforce st m = .error (c, e)) :
+    ErrClass d H e := by
+  unfold runModule at h
+  split at h
+  · rename_i f hp
+    cases h
+    obtain ⟨-, hd, hH, hcase⟩ := produce_err hp
+    rcases hcase with ⟨he, hr⟩ | ⟨hw, -⟩
+    · exact Or.inr (Or.inl ⟨he, m.name, hd, _, hH, hr⟩)
+    · exact Or.inl hw
+  · obtain ⟨-, hk⟩ := deliver_err h
+    rcases hk with hk | ⟨he, w, hw, hn⟩
+    · exact Or.inl hk
+    · refine Or.inr (Or.inr ⟨he, fun hex => ?_⟩)
+      have hw' : w ∈ d.wires := by
+        simp only [Diagram.outgoing, List.mem_filter] at hw; exact hw.1
+      have := (hex w hw').2
+      rw [hn] at this; cases this
+
+theorem pass_mono {d : Diagram} {H : Nat → Option Handler} {enforce : Bool} :
+    ∀ {ms : List ModuleSpec} {st st' : St}, pass d H enforce ms st = .ok st' →
+      st.order.length ≤ st'.order.length
+  | [], st, st', h => by simp only [pass] at h; cases h; exact Nat.le_refl _
+  | m :: ms, st, st', h => by
+    simp only [pass] at h
+    split at h
+    · exact pass_mono h
+    · split at h
+      · exact pass_mono h
+      · split at h
+        · cases h
+        · rename_i st1 hrun
+          have h1 := runModule_records hrun
+          have h2 := pass_mono h
+          rw [h1] at h2
+          simp only [List.length_append, List.length_cons, List.length_nil] at h2
+          omega
+
+theorem pass_errClass {d : Diagram} {H : Nat → Option Handler} {enforce : Bool} :
+    ∀ {ms : List ModuleSpec} {st : St} {c : List Call} {e : Err},
+      pass d H enforce ms st = .error (c, e) → ErrClass d H e
+  | [], st, c, e, h => by simp [pass] at h
+  | m :: ms, st, c, e, h => by
+    simp only [pass] at h
+    split at h
+    · exact pass_errClass h
+    · split at h
+      · exact pass_errClass h
+      · split at h
+        · rename_i f hrun
+          cases h
+          exact runModule_errClass hrun
+        · exact pass_errClass h
+
+/-- with fuel = number of modules the loop never reports `outOfFuel`: every scan that does not raise and is
+    not the last one executes at least one more module -/
+theorem loop_errClass {d : Diagram} {H : Nat → Option Handler} {enforce : Bool} :
+    ∀ {fuel : Nat} {st : St} {c : List Call} {e : Err}, d.modules.length ≤ st.order.length + fuel →
+      loop d H enforce fuel st = .error (c, e) → ErrClass d H e
+  | 0, st, c, e, hf, h => by
+    simp only [loop] at h
+    split at h
+    · omega
+    · cases h
+  | fuel + 1, st, c, e, hf, h => by
+    simp only [loop] at h
+    split at h
+    · split at h
+      · rename_i f hp
+        cases h
+        exact pass_errClass hp
+      · rename_i st1 hp
+        have hmono := pass_mono hp
+        split at h
+        · cases h; exact Or.inl rfl
+        · rename_i hne
+          exact loop_errClass (by omega) h
+    · cases h
+
+/-! ### `execute` as a whole -/
+
+theorem portsFit_empty (d : Diagram) (G : Prop) : PortsFit d G (fun _ => []) := by
+  intro n m _ pv hpv; simp at hpv
+
+theorem inv_init {d : Diagram} {H : Nat → Option Handler} {G : Prop} {mi : MInputs} (h : PortsFit d G mi) :
+    Inv d H G ⟨mi, [], []⟩ :=
+  ⟨by simp [St.order], by simp, h, by simp [St.order], by simp [St.order], by simp⟩
+
+theorem preflight_none {d : Diagram} {H : Nat → Option Handler} {mi : MInputs} (h : preflight d H mi = none) :
+    (∀ w ∈ d.wires, (d.findMod w.srcM).isSome = true) ∧
+    (∀ w ∈ d.wires, (d.incoming w.dstM w.dstP).length ≤ 1) ∧
+    (∀ m ∈ d.modules, preflightModule d H mi m = none) := by
+  unfold preflight at h
+  split at h
+  · cases h
+  · rename_i h1
+    split at h
+    · cases h
+    · rename_i h2
+      simp only [List.any_eq_true, not_exists, not_and, Bool.not_eq_true, Option.isNone_eq_false_iff] at h1
+      simp only [List.any_eq_true, decide_eq_true_eq, not_exists, not_and, Nat.not_lt] at h2
+      refine ⟨fun w hw => by simpa using h1 w hw, h2, ?_⟩
+      intro m hm
+      rw [List.findSome?_eq_none_iff] at h
+      exact h m hm
+
+theorem preflightModule_none {d : Diagram} {H : Nat → Option Handler} {mi : MInputs} {m : ModuleSpec}
+    (h : preflightModule d H mi m = none) :
+    (m.outputs ≠ [] → (H m.name).isSome = true) ∧
+    (∀ pp ∈ m.inputs, d.incoming m.name pp.1 ≠ [] ∨ hasKey pp.1 (mi m.name) = true) := by
+  unfold preflightModule at h
+  split at h
+  · cases h
+  · rename_i h1
+    split at h
+    · cases h
+    · rename_i h2
+      constructor
+      · intro hne
+        cases hH : (H m.name).isSome with
+        | true => rfl
+        | false =>
+          exfalso; apply h1
+          have : m.outputs.isEmpty = false := by
+            cases hm : m.outputs with
+            | nil => exact absurd hm hne
+            | cons a l => rfl
+          have hn : (H m.name).isNone = true := by
+            cases hh : H m.name with
+            | none => rfl
+            | some x => simp [hh] at hH
+          simp [this, hn]
+      · intro pp hpp
+        simp only [List.any_eq_true, not_exists, not_and] at h2
+        have := h2 pp hpp
+        by_cases he : d.incoming m.name pp.1 = []
+        · right
+          simp only [he, List.isEmpty_nil, Bool.true_and, Bool.not_eq_true', Bool.not_eq_false] at this
+          simpa using this
+        · exact Or.inl he
+
+theorem preflight_some {d : Diagram} {H : Nat → Option Handler} {mi : MInputs} {e : Err}
+    (h : preflight d H mi = some e) : e.isWiringError = true ∨ (e = .keyError ∧ ¬ d.WiresExist) := by
+  unfold preflight at h
+  split at h
+  · rename_i h1
+    cases h
+    right
+    refine ⟨rfl, fun hex => ?_⟩
+    simp only [List.any_eq_true] at h1
+    obtain ⟨w, hw, hn⟩ := h1
+    have := (hex w hw).1
+    cases hf : d.findMod w.srcM with
+    | none => simp [hf] at this
+    | some m => simp [hf] at hn
+  · split at h
+    · cases h; exact Or.inl rfl
+    · obtain ⟨m, -, hm⟩ := List.exists_of_findSome?_eq_some h
+      unfold preflightModule at hm
+      split at hm
+      · cases hm; exact Or.inl rfl
+      · split at hm
+        · cases hm; exact Or.inl rfl
+        · cases hm
+
+/-- a successful run ends in a state of the loop that satisfies the invariant and has executed as many
+    modules as the diagram has -/
+theorem execute_ok {d : Diagram} {H : Nat → Option Handler} {ext : List (Nat × List (Nat × Val))}
+    {enforce : Bool} {G : Prop} {recs : List Rec} (hwf : d.WF) (hG : G → enforce = true ∨ d.Accepted)
+    (h : (execute d H ext enforce).out = .ok recs) :
+    ∃ st mi, Inv d H G st ∧ st.records = recs ∧ st.calls = (execute d H ext enforce).calls ∧
+      d.modules.length ≤ st.order.length ∧ extPhase d ext (fun _ => []) = .ok mi ∧ preflight d H mi = none := by
+  unfold execute at h ⊢
+  split at h
+  · cases h
+  · rename_i mi hext
+    split at h
+    · cases h
+    · rename_i hpre
+      split at h
+      · cases h
+      · rename_i st hl
+        simp only [Except.ok.injEq] at h
+        have hi : Inv d H G ⟨mi, [], []⟩ := inv_init (extPhase_ok hext (portsFit_empty d G))
+        obtain ⟨hinv, hlen⟩ := loop_ok hwf hG hi hl
+        refine ⟨st, mi, hinv, h, ?_, hlen, ?_, hpre⟩
+        · simp
+        · exact hext
+
+theorem execute_fail {d : Diagram} {H : Nat → Option Handler} {ext : List (Nat × List (Nat × Val))}
+    {enforce : Bool} {G : Prop} {e : Err} (hwf : d.WF) (hG : G → enforce = true ∨ d.Accepted)
+    (h : (execute d H ext enforce).out = .error e) :
+    FailOK d H G ((execute d H ext enforce).calls, e) := by
+  have hnil : ∀ e', FailOK d H G ([], e') := fun e' => ⟨⟨by simp, by simp⟩, by simp⟩
+  unfold execute at h ⊢
+  split at h
+  · exact hnil _
+  · rename_i mi hext
+    split at h
+    · exact hnil _
+    · split at h
+      · rename_i calls e' hl
+        simp only [Except.error.injEq] at h
+        subst h
+        have hi : Inv d H G ⟨mi, [], []⟩ := inv_init (extPhase_ok hext (portsFit_empty d G))
+        exact loop_fail hwf hG hi hl
+      · cases h
+
+theorem execute_errClass {d : Diagram} {H : Nat → Option Handler} {ext : List (Nat × List (Nat × Val))}
+    {enforce : Bool} {e : Err} (h : (execute d H ext enforce).out = .error e) : ErrClass d H e := by
+  unfold execute at h
+  split at h
+  · rename_i e' he'
+    simp only [Except.error.injEq] at h; subst h
+    exact Or.inl (extPhase_err he')
+  · split at h
+    · rename_i e' he'
+      simp only [Except.error.injEq] at h; subst h
+      rcases preflight_some he' with hw | hk
+      · exact Or.inl hw
+      · exact Or.inr (Or.inr hk)
+    · split at h
+      · rename_i calls e' hl
+        simp only [Except.error.injEq] at h; subst h
+        exact loop_errClass (by simp [St.order]) hl
+      · cases h
+
+/-- if the pre-flight checks cannot pass, `execute` raises before any handler is invoked -/
+theorem execute_preflight {d : Diagram} {H : Nat → Option Handler} {ext : List (Nat × List (Nat × Val))}
+    {enforce : Bool} (h : ∀ mi, extPhase d ext (fun _ => []) = .ok mi → preflight d H mi ≠ none) :
+    ∃ e, (execute d H ext enforce).out = .error e ∧ (execute d H ext enforce).calls = [] ∧
+      (e.isWiringError = true ∨ (e = .keyError ∧ ¬ d.WiresExist)) := by
+  unfold execute
+  split
+  · rename_i e he
+    exact ⟨e, rfl, rfl, Or.inl (extPhase_err he)⟩
+  · rename_i mi hext
+    split
+    · rename_i e he
+      exact ⟨e, rfl, rfl, preflight_some he⟩
+    · rename_i hpre
+      exact absurd hpre (h mi hext)
+
+/-! ### where external values can come from -/
+
+theorem extPorts_keys {m : ModuleSpec} :
+    ∀ {ins : List (Nat × Val)} {acc res : List (Nat × TV)}, extPorts m ins acc = .ok res →
+      ∀ p, hasKey p res = true → hasKey p acc = true ∨ p ∈ keys ins
+  | [], acc, res, h, p, hp => by simp only [extPorts] at h; cases h; exact Or.inl hp
+  | (q, v) :: r, acc, res, h, p, hp => by
+    simp only [extPorts] at h
+    split at h
+    · cases h
+    · split at h
+      · cases h
+      · rename_i tv _
+        rcases extPorts_keys h p hp with h1 | h1
+        · obtain ⟨x, hx⟩ := (hasKey_iff _ _).mp h1
+          rcases mem_setKey hx with hx | hx
+          · cases hx; right; simp [keys]
+          · exact Or.inl ((hasKey_iff _ _).mpr ⟨x, hx⟩)
+        · right; simp only [keys, List.map_cons, List.mem_cons]; exact Or.inr h1
+
+theorem extPhase_keys {d : Diagram} :
+    ∀ {ext : List (Nat × List (Nat × Val))} {mi mi' : MInputs}, extPhase d ext mi = .ok mi' →
+      ∀ n p, hasKey p (mi' n) = true → hasKey p (mi n) = true ∨ ∃ ins, (n, ins) ∈ ext ∧ p ∈ keys ins
+  | [], mi, mi', h, n, p, hp => by simp only [extPhase] at h; cases h; exact Or.inl hp
+  | (k, ins) :: r, mi, mi', h, n, p, hp => by
+    simp only [extPhase] at h
+    split at h
+    · cases h
+    · split at h
+      · cases h
+      · rename_i l hl
+        rcases extPhase_keys h n p hp with h1 | ⟨ins', hmem, hk⟩
+        · by_cases hn : n = k
+          · subst hn
+            simp only [if_true] at h1
+            rcases extPorts_keys hl p h1 with h2 | h2
+            · exact Or.inl h2
+            · exact Or.inr ⟨ins, by simp, h2⟩
+          · simp only [hn, if_false] at h1
+            exact Or.inl h1
+        · exact Or.inr ⟨ins', List.mem_cons_of_mem _ hmem, hk⟩
+
+/-! ### counting -/
+
+theorem subset_of_nodup_length_le {l₁ l₂ : List Nat} (h₁ : l₁.Nodup) (hsub : l₁ ⊆ l₂)
+    (hlen : l₂.length ≤ l₁.length) : l₂ ⊆ l₁ := by
+  intro a ha
+  apply Classical.byContradiction
+  intro hna
+  have hsub' : l₁ ⊆ l₂.erase a := by
+    intro x hx
+    have hxa : x ≠ a := fun h => hna (h ▸ hx)
+    exact (List.mem_erase_of_ne hxa).2 (hsub hx)
+  have h1 := h₁.length_le_of_subset hsub'
+  have h2 : (l₂.erase a).length = l₂.length - 1 := by rw [List.length_erase]; simp [ha]
+  have h3 : 0 < l₂.length := List.length_pos_of_mem ha
+  omega
+
+theorem order_perm {d : Diagram} {H : Nat → Option Handler} {G : Prop} {st : St} (hwf : d.WF)
+    (hinv : Inv d H G st) (hlen : d.modules.length ≤ st.order.length) :
+    st.order.Perm (d.modules.map (·.name)) := by
+  have hsub : st.order ⊆ d.modules.map (·.name) := by
+    intro n hn
+    obtain ⟨r, hr, hrn⟩ := mem_order.mp hn
+    obtain ⟨m, hf, -⟩ := hinv.recMod r hr
+    obtain ⟨hm, hmn⟩ := findMod_some hf
+    exact List.mem_map.mpr ⟨m, hm, hmn.trans hrn⟩
+  rw [List.perm_ext_iff_of_nodup hinv.nodup hwf]
+  intro a
+  exact ⟨fun h => hsub h, fun h => subset_of_nodup_length_le hinv.nodup hsub (by simpa using hlen) h⟩
+
+/-! ### building diagrams through the API -/
+
+theorem findMod_append_of_some {d : Diagram} {m x : ModuleSpec} {n : Nat} (h : d.findMod n = some x) :
+    Diagram.findMod { modules := d.modules ++ [m], wires := d.wires } n = some x := by
+  unfold Diagram.findMod at *
+  simp [List.find?_append, h]
+
+theorem addModule_ok {d d' : Diagram} {m : ModuleSpec} (h : d.addModule m = .ok d') :
+    d.findMod m.name = none ∧ d' = { modules := d.modules ++ [m], wires := d.wires } := by
+  unfold Diagram.addModule at h
+  split at h
+  · cases h
+  · rename_i hn
+    cases h
+    exact ⟨by simpa using hn, rfl⟩
+
+theorem addModule_preserves {d d' : Diagram} {m : ModuleSpec} (h : d.addModule m = .ok d')
+    (hwf : d.WF) (hacc : d.Accepted) : d'.WF ∧ d'.Accepted := by
+  obtain ⟨hnone, rfl⟩ := addModule_ok h
+  constructor
+  · unfold Diagram.WF at *
+    simp only [List.map_append, List.map_cons, List.map_nil]
+    rw [List.nodup_append]
+    refine ⟨hwf, by simp, ?_⟩
+    intro a ha b hb
+    simp only [List.mem_singleton] at hb
+    subst hb
+    intro hab; subst hab
+    obtain ⟨x, hx, hxn⟩ := List.mem_map.mp ha
+    unfold Diagram.findMod at hnone
+    rw [List.find?_eq_none] at hnone
+    exact hnone x hx (by simpa using hxn)
+  · intro w hw
+    obtain ⟨s, t, hs, ht, e1, e2⟩ := hacc w hw
+    refine ⟨s, t, ?_, ?_, e1, e2⟩
+    · obtain ⟨x, hx, hl⟩ := outPort_some hs
+      unfold Diagram.outPort
+      rw [findMod_append_of_some hx]; simpa using hl
+    · obtain ⟨x, hx, hl⟩ := inPort_some ht
+      unfold Diagram.inPort
+      rw [findMod_append_of_some hx]; simpa using hl
+
+theorem connect_ok_iff {d d' : Diagram} {a p b q : Nat} :
+    d.connect a p b q = .ok d' ↔
+      ∃ s t, d.outPort a p = some s ∧ d.inPort b q = some t ∧ s.dt = t.dt ∧ t.il ≤ s.il ∧
+        d' = { modules := d.modules, wires := d.wires ++ [⟨a, p, b, q⟩] } := by
+  unfold Diagram.connect
+  constructor
+  · intro h
+    split at h
+    · cases h
+    · rename_i s hs
+      split at h
+      · cases h
+      · rename_i t ht
+        split at h
+        · cases h
+        · rename_i hr
+          cases h
+          obtain ⟨e1, e2⟩ := (requireFlowTo_none_iff s t).mp hr
+          exact ⟨s, t, hs, ht, e1, e2, rfl⟩
+  · rintro ⟨s, t, hs, ht, e1, e2, rfl⟩
+    have := (requireFlowTo_none_iff s t).mpr ⟨e1, e2⟩
+    simp [hs, ht, this]
+
+theorem connect_err {d : Diagram} {a p b q : Nat} {e : Err} (h : d.connect a p b q = .error e) :
+    e.isWiringError = true := by
+  unfold Diagram.connect at h
+  split at h
+  · cases h; rfl
+  · split at h
+    · cases h; rfl
+    · split at h
+      · rename_i e' he'; cases h; exact requireFlowTo_isWiringError he'
+      · cases h
+
+theorem connect_preserves {d d' : Diagram} {a p b q : Nat} (h : d.connect a p b q = .ok d')
+    (hwf : d.WF) (hacc : d.Accepted) : d'.WF ∧ d'.Accepted := by
+  obtain ⟨s, t, hs, ht, e1, e2, rfl⟩ := connect_ok_iff.mp h
+  refine ⟨hwf, ?_⟩
+  intro w hw
+  simp only [List.mem_append, List.mem_singleton] at hw
+  rcases hw with hw | rfl
+  · exact hacc w hw
+  · exact ⟨s, t, hs, ht, e1, e2⟩
+
+/-! ### capabilities -/
+
+def addCaps (acc cs : List Nat) : List Nat := cs.foldl (fun acc c => if c ∈ acc then acc else acc ++ [c]) acc
+
+theorem mem_addCaps {x : Nat} : ∀ {cs acc : List Nat}, x ∈ addCaps acc cs ↔ x ∈ acc ∨ x ∈ cs
+  | [], acc => by simp [addCaps]
+  | c :: cs, acc => by
+    unfold addCaps
+    simp only [List.foldl_cons]
+    have ih := @mem_addCaps x cs (if c ∈ acc then acc else acc ++ [c])
+    unfold addCaps at ih
+    rw [ih]
+    by_cases hc : c ∈ acc
+    · simp only [hc, if_true, List.mem_cons]
+      constructor
+      · rintro (h | h)
+        · exact Or.inl h
+        · exact Or.inr (Or.inr h)
+      · rintro (h | h | h)
+        · exact Or.inl h
+        · subst h; exact Or.inl hc
+        · exact Or.inr h
+    · simp only [hc, if_false, List.mem_append, List.mem_cons, List.not_mem_nil, or_false]
+      constructor
+      · rintro ((h | h) | h)
+        · exact Or.inl h
+        · exact Or.inr (Or.inl h)
+        · exact Or.inr (Or.inr h)
+      · rintro (h | h | h)
+        · exact Or.inl (Or.inl h)
+        · exact Or.inl (Or.inr h)
+        · exact Or.inr h
+
+theorem nodup_addCaps : ∀ {cs acc : List Nat}, acc.Nodup → (addCaps acc cs).Nodup
+  | [], acc, h => by simpa [addCaps] using h
+  | c :: cs, acc, h => by
+    unfold addCaps
+    simp only [List.foldl_cons]
+    have ih := @nodup_addCaps cs (if c ∈ acc then acc else acc ++ [c])
+    unfold addCaps at ih
+    apply ih
+    by_cases hc : c ∈ acc
+    · simpa [hc] using h
+    · simp only [hc, if_false]
+      rw [List.nodup_append]
+      refine ⟨h, by simp, ?_⟩
+      intro a ha b hb
+      simp only [List.mem_singleton] at hb
+      subst hb
+      intro hab; subst hab; exact hc ha
+
+theorem mem_foldl_caps {x : Nat} : ∀ {ms : List ModuleSpec} {acc : List Nat},
+    x ∈ ms.foldl (fun acc m => addCaps acc m.caps) acc ↔ x ∈ acc ∨ ∃ m ∈ ms, x ∈ m.caps
+  | [], acc => by simp
+  | m :: ms, acc => by
+    simp only [List.foldl_cons]
+    rw [mem_foldl_caps, mem_addCaps]
+    simp only [List.mem_cons, exists_eq_or_imp]
+    constructor
+    · rintro ((h | h) | h)
+      · exact Or.inl h
+      · exact Or.inr (Or.inl h)
+      · exact Or.inr (Or.inr h)
+    · rintro (h | h | h)
+      · exact Or.inl (Or.inl h)
+      · exact Or.inl (Or.inr h)
+      · exact Or.inr h
+
+theorem nodup_foldl_caps : ∀ {ms : List ModuleSpec} {acc : List Nat}, acc.Nodup →
+    (ms.foldl (fun acc m => addCaps acc m.caps) acc).Nodup
+  | [], acc, h => by simpa using h
+  | m :: ms, acc, h => by
+    simp only [List.foldl_cons]
+    exact nodup_foldl_caps (nodup_addCaps h)
+
+theorem requiredCaps_eq (d : Diagram) :
+    d.requiredCaps = d.modules.foldl (fun acc m => addCaps acc m.caps) [] := rfl
+
+/-! ### diagrams built through the public API -/
+
+inductive BuildOp where
+  | addModule (m : ModuleSpec)
+  | connect (a p b q : Nat)
+
+/-- one API call; a call that raises leaves the diagram as it was (both methods raise before they mutate) -/
+def Diagram.apply (d : Diagram) : BuildOp → Diagram
+  | .addModule m => match d.addModule m with | .ok d' => d' | .error _ => d
+  | .connect a p b q => match d.connect a p b q with | .ok d' => d' | .error _ => d
+
+def Diagram.build (ops : List BuildOp) : Diagram := ops.foldl Diagram.apply {}
+
+theorem apply_preserves {d : Diagram} (op : BuildOp) (hwf : d.WF) (hacc : d.Accepted) :
+    (d.apply op).WF ∧ (d.apply op).Accepted := by
+  cases op with
+  | addModule m =>
+    simp only [Diagram.apply]
+    split
+    · rename_i d' h; exact addModule_preserves h hwf hacc
+    · exact ⟨hwf, hacc⟩
+  | connect a p b q =>
+    simp only [Diagram.apply]
+    split
+    · rename_i d' h; exact connect_preserves h hwf hacc
+    · exact ⟨hwf, hacc⟩
+
+theorem foldl_apply_preserves : ∀ (ops : List BuildOp) (d : Diagram), d.WF → d.Accepted →
+    (ops.foldl Diagram.apply d).WF ∧ (ops.foldl Diagram.apply d).Accepted
+  | [], d, hwf, hacc => ⟨hwf, hacc⟩
+  | op :: ops, d, hwf, hacc => by
+    simp only [List.foldl_cons]
+    obtain ⟨h1, h2⟩ := apply_preserves op hwf hacc
+    exact foldl_apply_preserves ops _ h1 h2
+
+/-! ### cycles -/
+
+/-- a non-empty walk along wires from module `a` to module `b` -/
+inductive Diagram.Reaches (d : Diagram) : Nat → Nat → Prop where
+  | wire (w : Wire) : w ∈ d.wires → Diagram.Reaches d w.srcM w.dstM
+  | step (w : Wire) {c : Nat} : w ∈ d.wires → Diagram.Reaches d w.dstM c → Diagram.Reaches d w.srcM c
+
+theorem reaches_idx {d : Diagram} {order : List Nat}
+    (h : ∀ w ∈ d.wires, order.idxOf w.srcM < order.idxOf w.dstM) {a b : Nat} (hr : d.Reaches a b) :
+    order.idxOf a < order.idxOf b := by
+  induction hr with
+  | wire w hw => exact h w hw
+  | step w hw _ ih => exact Nat.lt_trans (h w hw) ih
+
+/-! ### every run -/
+
+theorem execute_callsOK {d : Diagram} {H : Nat → Option Handler} {ext : List (Nat × List (Nat × Val))}
+    {enforce : Bool} {G : Prop} (hwf : d.WF) (hG : G → enforce = true ∨ d.Accepted) :
+    CallsOK d H G (execute d H ext enforce).calls := by
+  cases h : (execute d H ext enforce).out with
+  | error e => exact (execute_fail hwf hG h).1
+  | ok recs =>
+    obtain ⟨st, mi, hinv, -, hc, -⟩ := execute_ok (G := G) hwf hG h
+    rw [← hc]; exact (inv_calls hinv).1
+
+/-- everything a successful run guarantees, in one place -/
+theorem execute_ok_facts {d : Diagram} {H : Nat → Option Handler} {ext : List (Nat × List (Nat × Val))}
+    {enforce : Bool} {recs : List Rec} (hwf : d.WF) (h : (execute d H ext enforce).out = .ok recs) :
+    (recs.map (·.name)).Perm (d.modules.map (·.name)) ∧
+    (∀ w ∈ d.wires, w.srcM ∈ recs.map (·.name) ∧ w.dstM ∈ recs.map (·.name) ∧
+      (recs.map (·.name)).idxOf w.srcM < (recs.map (·.name)).idxOf w.dstM) := by
+  obtain ⟨st, mi, hinv, hr, -, hlen, hext, hpre⟩ := execute_ok (G := False) hwf (fun f => f.elim) h
+  have hperm := order_perm hwf hinv hlen
+  have hord : st.order = recs.map (·.name) := by simp [St.order, hr]
+  rw [hord] at hperm
+  refine ⟨hperm, ?_⟩
+  intro w hw
+  have hsrc : w.srcM ∈ st.order := by
+    have := (preflight_none hpre).1 w hw
+    cases hf : d.findMod w.srcM with
+    | none => simp [hf] at this
+    | some m =>
+      obtain ⟨hm, hmn⟩ := findMod_some hf
+      rw [hord]
+      exact hperm.mem_iff.mpr (List.mem_map.mpr ⟨m, hm, hmn⟩)
+  obtain ⟨r, -, -, hin, -⟩ := hinv.flowed w hw hsrc
+  have hdst : w.dstM ∈ st.order := by
+    cases hp : d.inPort w.dstM w.dstP with
+    | none => simp [hp] at hin
+    | some pt =>
+      obtain ⟨m, hf, -⟩ := inPort_some hp
+      obtain ⟨hm, hmn⟩ := findMod_some hf
+      rw [hord]
+      exact hperm.mem_iff.mpr (List.mem_map.mpr ⟨m, hm, hmn⟩)
+  have := hinv.ordered w hw hsrc hdst
+  rw [hord] at hsrc hdst this
+  exact ⟨hsrc, hdst, this⟩
+
 end Operon.Wiring
